@@ -20,6 +20,7 @@ MILLION = 1000000
 # its callers' contracts so that the property lemmas are stated once.
 GSI_CLAUSES = [
     ('range', '1 <= {m} and {m} <= n'),
+    ('which', '{m} == Mof({tc})'),                                # the segment is a function of the timecode
     ('origin', '{origin} == Lof({tc}) * R'),                      # a whole number of reference loops
     ('start', '{start} == {origin} + S({m} - 1)'),
     ('loops', '{origin} - R <= {tc} and {tc} < {origin} + R'),    # the loop containing tc, or the one after it
@@ -43,6 +44,7 @@ def world():
     w['S'] = z3.Function('S', INT, INT)
     w['pos'] = z3.Function('pos', INT, INT)
     w['size'] = z3.Function('size', INT, INT)
+    w['Mof'] = z3.Function('Mof', INT, INT)      # segment index get_segment_index returns (skolem function of its result)
     w['Lof'] = z3.Function('Lof', INT, INT)      # loop index get_segment_index ends in (skolem function of its ghost L)
     i = z3.Int('i!ax')
     n, d, S = w['n'], w['d'], w['S']
@@ -144,7 +146,7 @@ GET_SEGMENT_INDEX = Contract(
              'forall(lambda j: (L - 1) * R + S(j - 1) + d(j) // 2 < timecode, 1, n + 1))'),
         ],
         variant=['timecode // R + 1 - L', 'n - mod_segment'])},
-    exports={'Lof(timecode)': 'L'},
+    exports={'Lof(timecode)': 'L', 'Mof(timecode)': 'mod_segment'},
     result=lambda eng, frame: (fresh('mod_segment'), fresh('seg_start_tc'), fresh('origin_time')),
     ensures=gsi('timecode', 'result[0]', 'result[1]', 'result[2]'),
     canaries=['result[1] + d(result[0]) // 2 > timecode', 'result[0] < n'],
@@ -454,7 +456,7 @@ def _gsi_facts(w, tc, m, start, origin):
     n, R, S, d, Lof = w['n'], w['R'], w['S'], w['d'], w['Lof']
     j = z3.Int('j!gsi')
     two = z3.IntVal(2)
-    return [1 <= m, m <= n, origin == Lof(tc) * R, start == origin + S(m - 1), origin - R <= tc, tc < origin + R,
+    return [1 <= m, m <= n, m == w['Mof'](tc), origin == Lof(tc) * R, start == origin + S(m - 1), origin - R <= tc, tc < origin + R,
             start + floordiv(d(m), two) >= tc, z3.Implies(origin > tc, m == 1),
             z3.ForAll([j], z3.Implies(z3.And(1 <= j, j < m), origin + S(j - 1) + floordiv(d(j), two) < tc)),
             z3.Implies(origin > tc, z3.ForAll([j], z3.Implies(z3.And(1 <= j, j <= n),
